@@ -155,11 +155,26 @@ def run_law(case, ctx, mon):
     key = b"k"
     finals = np.zeros(T, np.int64)
     ests = np.zeros(T)
+    via = case.get("via", "add")
+    # every entry point must drive the counter with fresh draws: N unit additions delivered through `via`
+    # (the sketch is 1 x 1, so every key owns the one counter)
+    steps = {"add": None,
+             "add_ngram_short": (lambda: s.add_ngram(key, 5), 1),
+             "add_ngram_windows": (lambda: s.add_ngram(b"kkkk", 1), 4),
+             "update_list": (lambda: s.update([key] * 10), 10),
+             "update_dict": (lambda: s.update({key: 7, b"other": 3}), 10),
+             "update_ngram": (lambda: s.update_ngram([b"kkk", b"k"], 1), 4)}[via]
     for t in range(T):
         s.cms[0, 0] = 0
-        s.add(key, N)
+        if steps is None:
+            s.add(key, N)
+        else:
+            fn, per = steps
+            for _ in range(N // per):
+                fn()
         finals[t] = s.cms[0, 0]
         ests[t] = s.query(key)
+    mon.seen("law_via", f"{kind}:{via}")
     dist = chain(base, nr, umax, N)
     K = len(dist)
     vals = state.decode_table(np.arange(K), nr, base)
@@ -341,6 +356,9 @@ def gen_cases(ctx):
     for kind, mc, nr in law:
         for N in ((40, 600, 3000) if kind == "log8" else (300, 4000)):
             cases.append({"type": "law", "kind": kind, "max_count": mc, "num_reserved": nr, "N": N, "T": 20000 if q else 100000})
+    for kind, mc, nr in (("log8", 2**32 - 1, 15), ("log16", 2**32 - 1, 0), ("log16", 70000, 5)):
+        for via in ("add_ngram_short", "add_ngram_windows", "update_list", "update_dict", "update_ngram"):
+            cases.append({"type": "law", "kind": kind, "max_count": mc, "num_reserved": nr, "N": 240, "T": 1500 if q else 20000, "via": via})
     for i in range(60 if q else 200):
         from .. import ops
 
@@ -398,3 +416,4 @@ def floors(mon, ctx):
     mon.floor("reserved-range cases", mon.counters["reserved_cases"], 10)
     mon.floor("lower-bound histories", mon.counters["lower_bound_histories"], 30)
     mon.floor("process pairs", mon.counters["process_pairs"], 1)
+    mon.floor("entry points x log types compared with the chain", len(mon.classes["law_via"]), 12)
